@@ -65,7 +65,7 @@ func canonical(l tombstones.Intervals) bool {
 func main() {
 	f := gallina.ParseFlags()
 	meta := gallina.NewMeta("C20", f.Seed, f.Tier)
-	meta.Rule = "corpus + exhaustive enumeration of canonical interval lists (<=3 intervals) over the boundary domain {MinInt64,MinInt64+1,-2..3,MaxInt64-1,MaxInt64} x every well-formed new interval over it, plus seeded random canonical and non-canonical lists; non-trivial = the insertion merges with or lands between existing intervals (result is not a plain append to an empty list); distinct by (input,new)"
+	meta.Rule = "corpus + exhaustive enumeration of canonical interval lists (<=3 intervals) over the boundary domain {MinInt64,MinInt64+1,-2..3,MaxInt64-1,MaxInt64} (quick tier: 8 of these 10 points, lists <=2; thorough: all, lists <=3) x every well-formed new interval over it, plus seeded random canonical and non-canonical lists; non-trivial = the insertion merges with or lands between existing intervals (result is not a plain append to an empty list); distinct by (input,new)"
 	cf := &gallina.CaseFile{Dir: f.Out, Type: "case", PerShard: 4000,
 		Preamble: "From Coq Require Import List ZArith.\nFrom Verif Require Import lib.Int64 model.Intervals corr.CorrC20.\nImport ListNotations.\nOpen Scope Z_scope.\n",
 		Footer:   gallina.StdFooter}
@@ -127,6 +127,8 @@ func main() {
 	maxLen := 2
 	if f.Tier == "thorough" {
 		maxLen = 3
+	} else {
+		dom = []int64{math.MinInt64, math.MinInt64 + 1, -1, 0, 1, 3, math.MaxInt64 - 1, math.MaxInt64}
 	}
 	var lists []tombstones.Intervals
 	var rec func(cur tombstones.Intervals, from int)
